@@ -240,7 +240,10 @@ func (p *asyncPostProcess) OnFinished(f func(path string, content []byte) error)
 	var wg sync.WaitGroup
 	errs := make(chan error, len(p.jobs))
 	processing := make(chan struct{}, p.concurrency)
+	vi := -1 // job index, for the verif hook only
 	for _, j := range p.jobs {
+		vi++
+		verifYield("dispatch", vi)
 		select {
 		case processing <- struct{}{}: // processing++, block if full
 		case err := <-errs:
@@ -248,8 +251,10 @@ func (p *asyncPostProcess) OnFinished(f func(path string, content []byte) error)
 			return err
 		}
 		wg.Add(1)
+		verifYield("acquired", vi)
 		go func(path string, content []byte) {
 			defer func() { wg.Done(); <-processing }() // processing--
+			verifYield("worker-start", -1)
 			var err error
 			if p.pp != nil {
 				content, err = p.pp.PostProcess(path, content)
@@ -258,11 +263,14 @@ func (p *asyncPostProcess) OnFinished(f func(path string, content []byte) error)
 				err = f(path, content)
 			}
 			if err != nil {
+				verifYield("error-send", -1)
 				errs <- err
 			}
+			verifYield("worker-end", -1)
 		}(j.Path, unsafex.StringToBinary(j.Content))
 	}
 	wg.Wait()
+	verifYield("collect", -1)
 	select {
 	case err := <-errs:
 		return err
